@@ -137,6 +137,25 @@ def runner(rep, tier, seed, replay):
     # (B) validate the recorded loop events against the specification
     ok, bad = tracecheck.validate_cmdlist(trace_batch, rep)
     ntraces += ok
+    # ---- the splitter itself: spec/Splitter.tla is line_to_cmds (and trim_cmd) transcribed statement by statement; every string
+    # over an 11-symbol alphabet up to length 4 (thorough 5) must be split by the real code exactly as by the transcription
+    # (conformance: drift is reported, not alarmed); TLC checks that on plain lines (balanced quotes, no backslash / comment /
+    # backquote) the transcription finds exactly the reference reader's operators (PlainAgrees)
+    from common import chars, inproc_map
+    scases = []
+    rs2 = run_tlc("MCSplitter", "MCSplitter_4" if tier == "quick" else "MCSplitter_5", on_replay=scases.append, keep_replays=False, timeout=3000)
+    if rs2.violation:
+        raise ToolError("the transcription of line_to_cmds disagrees with the reference reader on a plain line:\n" + rs2.violation[:2000])
+    rep.add_tlc(rs2)
+    sgot = inproc_map("cmds", [{"id": i, "line": chars(list(c["s"]))} for i, c in enumerate(scases)], timeout=20)
+    sdrift = [c["s"] for c, g in zip(scases, sgot) if not g or g.get("cmds") != [chars(list(x)) for x in c["cmds"]]]
+    if sdrift:
+        log("[C03] splitter transcription drift on %d strings, e.g. %r" % (len(sdrift), sdrift[:5]))
+    rep.cov["splitter_strings"] = len(scases)
+    rep.cov["splitter_drift"] = len(sdrift)
+    rep.cov["splitter_drift_examples"] = sdrift[:10]
+    rep.cov["splitter_vs_reader_disagreements"] = sum(1 for c in scases if not c["agrees"])
+    rep.cov["spec_drift"] = len(sdrift)
     rep.cov["traces_validated_against_impl"] = rep.cov["evaluations"] + ntraces
     rep.cov["hook_traces_accepted"] = ntraces
     rep.cov["distinct_nontrivial"] = len(distinct)
